@@ -1086,4 +1086,89 @@ example : (run demoNet [login01, login01, .changePassword 1 "admin" "admin" "pw1
   decide
 
 
+/-! ### session ids are unique and below the counter (reachable-state invariant) -/
+
+/-- every remote session id is below the fresh-id counter and no two sessions of a node share an id -/
+def FreshIds (n : Net) : Prop :=
+  ∀ y b, n.node y = some b → (∀ s ∈ b.rem, s.id < n.nextId) ∧ (b.rem.map (·.id)).Nodup
+
+theorem C16_fresh_ids_step (n : Net) (op : Op) (h : FreshIds n) : FreshIds (step n op).1 := by
+  intro y a ha
+  have hmono := step_nextId_mono n op
+  rcases isRemoteLogin_or op with hop | ⟨x, y', u, p, rfl⟩
+  · obtain ⟨b, hb, hsub⟩ := Net.Rel.back_of_len (step_remShrink n op hop) ha
+    obtain ⟨hlt, hnd⟩ := h y b hb
+    refine ⟨fun s hs => ?_, hsub.nodup hnd⟩
+    obtain ⟨s', hs', hid⟩ := List.mem_map.mp (hsub.subset (List.mem_map_of_mem hs))
+    have := hlt s' hs'
+    omega
+  · simp only [step] at ha hmono ⊢
+    rcases opRemoteLogin_cases n x y' u p with ⟨h0, _⟩ | ⟨_, b', _, _, _, hb', _, _, h0⟩
+    · rw [h0] at ha ⊢; exact h y a ha
+    · have F : Pre (fun (_ : Nat) (_ _ : Node) => True) := ⟨fun _ _ => trivial, fun _ _ _ _ _ _ => trivial⟩
+      obtain ⟨b, hb, _⟩ := Net.Rel.back_of_len (F.remoteLogin n x y' u p (fun _ _ => trivial) (fun _ _ _ => trivial)) ha
+      obtain ⟨hlt, hnd⟩ := h y b hb
+      have hrem := opRemoteLogin_rem n x y' u p y b a hb ha h0
+      have hnext : (opRemoteLogin n x y' u p).1.nextId = n.nextId + 1 := by
+        rcases h0 with ⟨h0, _⟩ | ⟨h0, _⟩ <;> rw [h0] <;> simp [afterLogin]
+      by_cases hy : y' = y
+      · simp only [hy, if_true] at hrem
+        rw [hrem, hnext]
+        refine ⟨fun s hs => ?_, ?_⟩
+        · rcases List.mem_append.mp hs with hs | hs
+          · have := hlt s hs; omega
+          · simp only [List.mem_singleton] at hs; subst hs; simp
+        · rw [List.map_append, List.nodup_append]
+          refine ⟨hnd, by simp, ?_⟩
+          intro i hi j hj
+          simp only [List.map_cons, List.map_nil, List.mem_singleton] at hj
+          obtain ⟨s', hs', hid⟩ := List.mem_map.mp hi
+          have := hlt s' hs'
+          omega
+      · simp only [hy, if_false] at hrem
+        rw [hrem, hnext]
+        exact ⟨fun s hs => by have := hlt s hs; omega, hnd⟩
+
+theorem C16_fresh_ids_run (ops : List Op) (n : Net) (h : FreshIds n) : FreshIds (run n ops) := by
+  induction ops generalizing n with
+  | nil => exact h
+  | cons op ops ih => exact ih _ (C16_fresh_ids_step n op h)
+
+theorem eq_of_nodup_ids {l : List RSession} (h : (l.map (·.id)).Nodup) {s s' : RSession} (hs : s ∈ l) (hs' : s' ∈ l)
+    (hid : s.id = s'.id) : s = s' := by
+  induction l with
+  | nil => cases hs
+  | cons a t ih =>
+    simp only [List.map_cons, List.nodup_cons] at h
+    rcases List.mem_cons.mp hs with h1 | h1 <;> rcases List.mem_cons.mp hs' with h2 | h2
+    · rw [h1, h2]
+    · subst h1; exact (h.1 (hid ▸ List.mem_map_of_mem h2)).elim
+    · subst h2; exact (h.1 (hid ▸ List.mem_map_of_mem h1)).elim
+    · exact ih h.2 h1 h2
+
+/-- **C16, time-out is exact.** In a state with unique ids (every state reachable from a fresh network,
+`C16_fresh_ids_run`), after the tick that makes the time `t + 1` the remote sessions of `y` are exactly those with
+`last + timeout > t + 1`: a session idle since `t₀` ends at the `pre_timestep` of tick `t₀ + timeout`, not earlier, not later. -/
+theorem C16_timeout_exact (n : Net) (hf : FreshIds n) (y : Nat) (b : Node) (hb : n.node y = some b) (s : RSession)
+    (hs : s ∈ b.rem) :
+    ∃ a, (tick n).node y = some a ∧ (s ∈ a.rem ↔ n.time + 1 < s.last + b.remoteTimeout) := by
+  by_cases hlive : n.time + 1 < s.last + b.remoteTimeout
+  · have hne : ∀ s' ∈ b.rem, s'.last + b.remoteTimeout ≤ n.time + 1 → s'.id ≠ s.id := by
+      intro s' hs' hexp hid
+      have := eq_of_nodup_ids (hf y b hb).2 hs' hs hid
+      subst this; omega
+    obtain ⟨a, ha, hsa⟩ := C16_timeout_not_earlier n y b s hb hs hlive hne
+    exact ⟨a, ha, ⟨fun _ => hlive, fun _ => hsa⟩⟩
+  · obtain ⟨a, ha⟩ : ∃ a, (tick n).node y = some a := by
+      have := step_node_some n .tick y b hb
+      simpa [step] using this
+    refine ⟨a, ha, ⟨fun hsa => ?_, fun h => (hlive h).elim⟩⟩
+    exact (C16_timeout_expired_gone n y b s hb hs (by omega) a ha hsa).elim
+
+example : FreshIds demoNet := by
+  intro y b hb
+  match y, hb with
+  | 0, hb => cases hb; exact ⟨fun s hs => (by simp at hs), (by decide)⟩
+  | 1, hb => cases hb; exact ⟨fun s hs => (by simp at hs), (by decide)⟩
+
 end Primaite.Session
